@@ -1,5 +1,6 @@
 // C01: direct geodesic problem (series, exact, exact=true, line forms) against the specification oracle
 #include "geodcommon.hpp"
+#include "C01_line.hpp"
 using namespace gd; using namespace gv;
 
 template<class Geod> static Res direct(const Geod& g, double lat1, double lon1, double azi1, bool arc, double len, bool unroll) {
@@ -70,6 +71,8 @@ void gv::generate(const std::string& tier, uint64_t seed) {
     run("gdirect", {hx(a), hx(f), hx(lat1), hx(lon1), hx(azi1), arc ? "1" : "0", hx(len)});
     stratum(std::string("direct-") + (std::fabs(f) <= 0.02 ? "series-range" : "exact-only") + (arc ? "-arc" : "-dist"));
     if (i < 3) sample(current_op());
+    // the same case through the Lean model of the series solver (constants, LineInit, GenPosition)
+    gline::model_case(r, a, f, lat1, lon1, azi1, arc, len, i % 16 == 0);
     if (i % 4 == 0) { double x = r.range(-4, 4); int nn = r.irange(0, 9); Args sa = {r.coin() ? "1" : "0", hx(std::sin(x)), hx(std::cos(x))}; for (int j = 0; j < nn; ++j) sa.push_back(hx(r.range(-1, 1) * std::pow(10.0, -j))); run("sincosseries", sa); }
   }
 }
